@@ -5,6 +5,7 @@
 //!   pool    consistent histories + far-future / pruned / equivocating votes and certificates -> real PoolImpl,
 //!           every emitted event handed to a real Votor
 //!   votor   blockstore events and time-outs for extreme slots (u64 arithmetic)
+//!   prod    the REAL produce_slice_payload / apply_parent_ready (cfg hooks) on scripted transaction sources
 //!   node    clusters of real `Alpenglow` nodes over `SimulatedNetwork` with one Byzantine validator (real keys)
 //!           and an outside attacker on all five interfaces; a process-wide panic hook records every task panic,
 //!           finalized slots are read before / after the hostile phase and a repair request is sent afterwards
@@ -152,11 +153,14 @@ fn pipe_case(rng: &mut Rng, keys: &EdKeys, id: u64) -> PipeOut {
     let mut shapes = Vec::new();
     let mut served = false;
     for bi in 0..nblocks {
+        // now and then the last (honest) block lies in the last leader window of the u64 range
+        if bi + 1 == nblocks && rng.chance(1, 4) { slot = u64::MAX - rng.below(SPW); }
         let leader = (slot / SPW) % n;
         let sk = &keys.ed[leader as usize];
         let pk = keys.epoch.epoch_info().leader(Slot::new(slot)).pubkey;
         let (specs, shape) = loop {
-            let (sp, sh) = c13::block_shape(rng, slot);
+            // (the shape generator adds to the slot: keep its arithmetic away from 2^64; parents then lie 8+ slots back)
+            let (sp, sh) = c13::block_shape(rng, if slot > u64::MAX - 8 { slot - 8 } else { slot });
             // the data/coding tag finding belongs to C12 (known finding C12-tag-unbound)
             if sh == "honest-tag-flip" { continue; }
             if bi + 1 == nblocks && !sh.starts_with("honest") { continue; }
@@ -214,7 +218,7 @@ fn pipe_case(rng: &mut Rng, keys: &EdKeys, id: u64) -> PipeOut {
         }
         if bi + 1 == nblocks { served = block_here || !dels_cover(&dels, &built); }
         blocks_txt.push(format!("({}, {}, {})", cf::n(slot), cf::list(&content), cf::list(&steps)));
-        slot += rng.range(1, 6);
+        slot = slot.saturating_add(rng.range(1, 6));
         // now and then a slot whose leader signs malformed shards (odd / empty / oversize / unequal sizes, swapped
         // data / coding tags, payload without padding marker): they pass signature validation and must be refused by
         // the layout / size guards in front of the Reed-Solomon decoder
@@ -389,6 +393,121 @@ fn votor_extreme(rng: &mut Rng) -> (Vec<VIn>, bool) {
 }
 
 // =====================================================================================================
+// stream 4b: the block producer's slice builder and parent handover through the cfg hooks
+// =====================================================================================================
+/// hands out the scripted payloads, then pends (the builder's time-out ends the slice)
+struct TxSource { txs: Mutex<std::collections::VecDeque<Vec<u8>>>, taken: std::sync::atomic::AtomicU64 }
+impl Network for TxSource {
+    type Send = Transaction;
+    type Recv = Transaction;
+    async fn send(&self, _m: &Transaction, _a: SocketAddr) -> std::io::Result<()> { Ok(()) }
+    async fn send_to_many(&self, _m: &Transaction, _a: impl IntoIterator<Item = SocketAddr> + Send) -> std::io::Result<()> { Ok(()) }
+    async fn receive(&self) -> std::io::Result<Transaction> {
+        let next = self.txs.lock().unwrap().pop_front();
+        match next {
+            Some(p) => { self.taken.fetch_add(1, std::sync::atomic::Ordering::SeqCst); Ok(Transaction(p)) }
+            None => std::future::pending().await,
+        }
+    }
+}
+
+/// (parent, data) of a slice payload, from its wincode bytes
+fn parse_payload(b: &[u8]) -> Option<(Option<(u64, BlockHash)>, Vec<u8>)> {
+    let mut p = 0usize;
+    let parent = match *b.get(0)? {
+        0 => { p += 1; None }
+        1 => { let slot = u64::from_le_bytes(b.get(1..9)?.try_into().ok()?); let h: Hash = wincode::deserialize(b.get(9..41)?).ok()?; p += 41; Some((slot, h.into())) }
+        _ => return None,
+    };
+    let dl = u64::from_le_bytes(b.get(p..p + 8)?.try_into().ok()?) as usize;
+    p += 8;
+    let data = b.get(p..p + dl)?.to_vec();
+    if p + dl != b.len() { return None; }
+    Some((parent, data))
+}
+
+fn tx_streams(rng: &mut Rng, has_parent: bool) -> (Vec<u64>, &'static str) {
+    let space: u64 = alpenglow::shredder::MAX_DATA_PER_SLICE as u64 - if has_parent { 41 } else { 1 } - 8;
+    let maxtx = alpenglow::MAX_TRANSACTION_SIZE as u64;
+    let mtu_p = alpenglow::network::MTU_BYTES as u64 - 8;
+    let around = [0u64, 1, 100, maxtx - 1, maxtx, maxtx + 1, 600, 1100, mtu_p - 1, mtu_p, mtu_p + 1, 2000, 5000];
+    match rng.below(7) {
+        0 => ((0..rng.range(0, 90)).map(|_| *rng.pick(&around)).collect(), "mixed-lengths"),
+        1 => ((0..rng.range(1, 70)).map(|_| rng.range(0, maxtx)).collect(), "within-limit"),
+        2 => (vec![mtu_p; rng.range(1, 40) as usize], "flood-of-maximal-datagrams"),
+        3 => { let mut v = vec![maxtx; 61]; v.push(*rng.pick(&[1100u64, mtu_p, maxtx + 1, 0, maxtx])); v.extend((0..rng.range(0, 4)).map(|_| *rng.pick(&around))); (v, "pinned-witness-shape") }
+        4 => {
+            // fill with maximal in-limit transactions, then one transaction that leaves exactly / just more / just
+            // less than MAX_TRANSACTION_SIZE + 8 bytes, then more traffic
+            let mut v = Vec::new(); let mut len = 8u64;
+            while space - len >= 2 * (maxtx + 8) + 40 { v.push(maxtx); len += maxtx + 8; if rng.chance(1, 9) { v.push(*rng.pick(&[maxtx + 1, 1100, mtu_p])); } }
+            let target_left = maxtx + 8 + rng.range(0, 2) - 1;      // 519, 520, 521
+            let room = space - len;                                   // >= 520 here
+            if room >= target_left + 8 && room - target_left - 8 <= maxtx { v.push(room - target_left - 8); }
+            v.extend((0..rng.range(1, 5)).map(|_| *rng.pick(&around)));
+            (v, "slice-boundary")
+        }
+        5 => { let mut v: Vec<u64> = (0..rng.range(60, 70)).map(|_| if rng.chance(1, 3) { *rng.pick(&[maxtx + 1, 1100, mtu_p]) } else { maxtx }).collect(); v.push(0); (v, "interleaved-oversize") }
+        _ => (vec![], "no-transactions"),
+    }
+}
+
+/// one slice built by the real code from the scripted source; (case text, model-free summary)
+fn prod_case(rng: &mut Rng, id: u64) -> (String, &'static str, bool, u64) {
+    let has_parent = rng.chance(1, 2);
+    let (lens, kind) = tx_streams(rng, has_parent);
+    let src = TxSource { txs: Mutex::new(lens.iter().enumerate().map(|(i, l)| vec![(i % 251) as u8; *l as usize]).collect()), taken: Default::default() };
+    let parent: Option<BlockId> = if has_parent { Some((Slot::new(7), hash_of(3))) } else { None };
+    // paused clock: once the source pends, the builder's sleep is the only timer and fires at once
+    let rt = tokio::runtime::Builder::new_current_thread().enable_all().start_paused(true).build().expect("rt");
+    let res = catch_unwind(AssertUnwindSafe(|| rt.block_on(alpenglow::consensus::block_producer::verif_produce_slice_payload(&src, parent, Duration::from_secs(3600)))));
+    let consumed = src.taken.load(std::sync::atomic::Ordering::SeqCst);
+    let l = |v: &[u64]| cf::list(&v.iter().map(|x| cf::n(*x)).collect::<Vec<_>>());
+    match res {
+        Err(_) => (format!("(C10Prod {} {} {} false 0%N 0%N {} [] true)", cf::n(id), cf::b(has_parent), l(&lens), cf::n(consumed)), kind, true, 0),
+        Ok((payload, left)) => {
+            let bytes: Vec<u8> = payload.into();
+            let (par, data) = parse_payload(&bytes).expect("slice payload layout");
+            assert_eq!(par.is_some(), has_parent);
+            let count = u64::from_le_bytes(data[0..8].try_into().unwrap());
+            let mut got = Vec::new();
+            let mut p = 8usize;
+            while p + 8 <= data.len() { let tl = u64::from_le_bytes(data[p..p + 8].try_into().unwrap()); got.push(tl); p += 8 + tl as usize; }
+            // a buffer that does not parse back into transactions is reported through an impossible length list
+            if p != data.len() { got.push(u64::MAX); }
+            let full = !left.is_zero();
+            (format!("(C10Prod {} {} {} {} {} {} {} {} false)", cf::n(id), cf::b(has_parent), l(&lens), cf::b(full), cf::n(data.len() as u64), cf::n(count), cf::n(consumed), l(&got)), kind, false, count)
+        }
+    }
+}
+
+fn apr_case(rng: &mut Rng, id: u64) -> (String, &'static str, bool) {
+    let os = rng.range(1, 40);
+    let oh = rng.range(1, 9);
+    let (rs, rh, kind) = match rng.below(5) {
+        0 => (os, oh, "same-block"),
+        1 => (os, oh + 1 + rng.below(3), "other-block-same-slot"),
+        2 => (rng.range(0, os.saturating_sub(1)), oh + 1 + rng.below(3), "other-block-earlier-slot"),
+        3 => (os + 1 + rng.below(3), oh + 1, "other-block-later-slot"),
+        _ => (os.saturating_sub(1), oh, "same-hash-other-slot"),
+    };
+    let none: Option<BlockId> = None;
+    let bytes = wincode::serialize(&(none, vec![0u8; 8])).unwrap();
+    let mut payload = alpenglow::types::SlicePayload::try_from(bytes.as_slice()).expect("payload");
+    let opt: BlockId = (Slot::new(os), hash_of(oh));
+    let recv: BlockId = (Slot::new(rs), hash_of(rh));
+    let r = { let pl = &mut payload; catch_unwind(AssertUnwindSafe(|| alpenglow::consensus::block_producer::verif_apply_parent_ready(pl, recv, &opt))) };
+    let imp = match r {
+        Err(_) => "None".to_string(),
+        Ok(()) => {
+            let b: Vec<u8> = payload.into();
+            match parse_payload(&b).expect("payload layout").0 { None => "(Some None)".to_string(), Some((s, h)) => format!("(Some (Some {}))", pool::r_bid((s, pool::id_of(&h)))) }
+        }
+    };
+    (format!("(C10Apr {} {} {} {})", cf::n(id), pool::r_bid((os, oh)), pool::r_bid((rs, rh)), imp), kind, imp == "None")
+}
+
+// =====================================================================================================
 // stream 5: real clusters
 // =====================================================================================================
 /// raw datagram (written as is)
@@ -543,6 +662,15 @@ fn run_node_scenario(sc: Scenario, seed: u64) -> NodeOut {
                 byz.shred(&a[0], "shred-last-window").await;
                 tokio::time::sleep(Duration::from_millis(50)).await;
                 byz.shred(&b[0], "shred-last-window").await;
+                tokio::time::sleep(Duration::from_millis(100)).await;
+                // ... and complete, well-formed blocks in that window (blockstore -> pool.add_block -> Votor with the
+                // largest slots there are)
+                for d in 1..4u64 {
+                    let slot = u64::MAX - (s % 4 + d) % 4;
+                    if slot == s { continue; }
+                    let (shreds, _h) = simple_block(slot, (Slot::new(slot - 1), any_hash(d)), &byz.ed, d);
+                    for x in &shreds { byz.shred(x, "shred-last-window-block").await; }
+                }
                 tokio::time::sleep(Duration::from_millis(300)).await;
             }
             Scenario::EquivocationHandover => { let (p, n) = equivocation_handover(&byz, &seen).await; param = p; note = n; }
@@ -793,7 +921,7 @@ fn probe_pick_random_peer() -> String {
 pub fn gen_c10(seed: u64, tier: Tier) -> CaseSet {
     install_hook();
     let mut rng = Rng::new(seed ^ 0xC10);
-    let (n_pipe, n_rep, n_pool, n_votor) = match tier { Tier::Quick => (40, 24, 50, 120), Tier::Thorough => (1200, 600, 1500, 4000) };
+    let (n_pipe, n_rep, n_pool, n_votor, n_prod) = match tier { Tier::Quick => (40, 24, 50, 120, 150), Tier::Thorough => (1200, 600, 1500, 4000, 6000) };
     let (mut cases, mut descr, mut sigs): (Vec<String>, Vec<String>, Vec<(u64, u64, String)>) = (Vec::new(), Vec::new(), Vec::new());
     let mut stats = Stats::default();
     let mut seen = HashSet::new();
@@ -884,6 +1012,27 @@ pub fn gen_c10(seed: u64, tier: Tier) -> CaseSet {
             cid += 1;
         }
     }
+    // ---- stream 4b: the real slice builder / parent handover (cfg hooks) ----
+    for i in 0..n_prod {
+        if i % 5 == 4 {
+            let (txt, kind, panicked) = apr_case(&mut rng, cid);
+            sigs.push((cid, 0, format!("producer:apply-parent-ready:{}{}", kind, if panicked { ":panic" } else { "" })));
+            *dist.entry(format!("handover:{}", kind)).or_default() += 1;
+            stats.evaluations += 1;
+            if seen.insert(txt.clone()) { stats.distinct_nontrivial += 1; }
+            descr.push(format!("case {}: apply_parent_ready (hook), {}, panicked {}", cid, kind, panicked));
+            cases.push(txt);
+        } else {
+            let (txt, kind, panicked, count) = prod_case(&mut rng, cid);
+            sigs.push((cid, 0, format!("producer:produce-slice-payload:{}{}", kind, if panicked { ":panic" } else { "" })));
+            *dist.entry(format!("producer-stream:{}", kind)).or_default() += 1;
+            stats.evaluations += 1;
+            if count > 0 && seen.insert(txt.clone()) { stats.distinct_nontrivial += 1; }
+            descr.push(format!("case {}: produce_slice_payload (hook) on a scripted transaction source, {}, {} transactions in the slice, panicked {}", cid, kind, count, panicked));
+            cases.push(txt);
+        }
+        cid += 1;
+    }
     // ---- stream 5: clusters ----
     let node_outs: Vec<NodeOut> = node_threads.into_iter().map(|t| t.join().expect("cluster scenario")).collect();
     std::thread::sleep(Duration::from_millis(300));
@@ -911,7 +1060,7 @@ pub fn gen_c10(seed: u64, tier: Tier) -> CaseSet {
     stats.distribution.push(("probe:pick_random_peer".into(), probe_pick_random_peer()));
     let mut d: Vec<_> = dist.into_iter().collect(); d.sort();
     stats.distribution.push(("streams".into(), d.iter().map(|(k, c)| format!("{}={}", k, c)).collect::<Vec<_>>().join(", ")));
-    stats.rule = "five hostile streams, each interleaved with normal traffic and run against the REAL code under catch_unwind / a process-wide panic hook: (1) shred path - blocks of C13's shapes (honest; Byzantine-signed: no parent, parent switched twice / to the same value, undecodable data, parent not in an earlier slot, conflicting slices, contradictory last-slice flags) in increasing slots through ValidatedShred::try_new with the cached commitment -> BlockstoreImpl -> PoolImpl::add_block -> Votor, the last block honest (must still be reconstructed); (2) repair - C14's requester (hostile / unsolicited / mismatched / replayed responses) and responder (all request kinds and indices, unknown senders) cases; (3) consensus - C08's consistent multi-window histories with standstill triggers, interleaved with votes and certificates for far-future slots (finalized + 2*SLOTS_PER_EPOCH -1/+0/+1, 2^32, 2^63, 2^64-5..2^64-1), pruned slots and one validator equivocating in every way, every pool event handed to a real Votor; (4) Votor - C05's event scenarios plus blockstore events and time-outs for slots 2^63-1, 2^63, 2^64-8..2^64-1; (5) four real clusters (2 Alpenglow nodes with 5/6 of the stake + 1 Byzantine validator holding real keys + an outside attacker) over SimulatedNetwork: all-interfaces hostile traffic that must be survived (far-future / pruned / equivocating / impersonated votes, under-staked / forged / wrong-length / replayed-valid certificates, Byzantine block shapes incl. far-future windows, odd / empty / oversize / mis-tagged / unequal shards, contradictory last flags, wrong leader, repair requests with out-of-range indices and unknown senders, unsolicited and mismatched repair responses, transactions within the limit, raw and truncated datagrams on all five sockets), a flood of maximal transactions, shreds for the last u64 leader window, and an equivocating leader before a handover; non-trivial = hostile content reached a decision (InvalidBlock / finalization / votes) or a cluster ran".into();
+    stats.rule = "six hostile streams, each interleaved with normal traffic and run against the REAL code under catch_unwind / a process-wide panic hook: (1) shred path - blocks of C13's shapes (honest; Byzantine-signed: no parent, parent switched twice / to the same value, undecodable data, parent not in an earlier slot, conflicting slices, contradictory last-slice flags) in increasing slots through ValidatedShred::try_new with the cached commitment -> BlockstoreImpl -> PoolImpl::add_block -> Votor, the last block honest (must still be reconstructed); (2) repair - C14's requester (hostile / unsolicited / mismatched / replayed responses) and responder (all request kinds and indices, unknown senders) cases; (3) consensus - C08's consistent multi-window histories with standstill triggers, interleaved with votes and certificates for far-future slots (finalized + 2*SLOTS_PER_EPOCH -1/+0/+1, 2^32, 2^63, 2^64-5..2^64-1), pruned slots and one validator equivocating in every way, every pool event handed to a real Votor; (4) Votor - C05's event scenarios plus blockstore events and time-outs for slots 2^63-1, 2^63, 2^64-8..2^64-1; (4b) the real produce_slice_payload on scripted transaction sources (payload lengths around 0 / 511 / 512 / 513 / 1100 / 1492 / beyond the MTU, mixed, floods of maximal datagrams, the pinned 61x512+1100 shape, fills that leave exactly 519 / 520 / 521 bytes, with and without parent; the source pends at the end so that the time-out ends the slice) and the real apply_parent_ready (same block, other block in the same / an earlier / a later slot), both through the cfg hooks; (5) four real clusters (2 Alpenglow nodes with 5/6 of the stake + 1 Byzantine validator holding real keys + an outside attacker) over SimulatedNetwork: all-interfaces hostile traffic that must be survived (far-future / pruned / equivocating / impersonated votes, under-staked / forged / wrong-length / replayed-valid certificates, Byzantine block shapes incl. far-future windows, odd / empty / oversize / mis-tagged / unequal shards, contradictory last flags, wrong leader, repair requests with out-of-range indices and unknown senders, unsolicited and mismatched repair responses, transactions within the limit, raw and truncated datagrams on all five sockets), a flood of maximal transactions, shreds for the last u64 leader window, and an equivocating leader before a handover; non-trivial = hostile content reached a decision (InvalidBlock / finalization / votes) or a cluster ran".into();
     CaseSet { header: "From AG Require Import Model.Pool Model.Blockstore Model.Repair Model.Votor Oracle.C13 Oracle.C14 Oracle.PoolRun Oracle.VotorRun Oracle.C10.\n".to_string(), runner: "c10_run".to_string(), defs: Vec::new(), cases, descr, sigs, stats }
 }
 
